@@ -404,3 +404,33 @@ func DiffOutside(a, b *Dev, lo, hi int64) int64 {
 
 var _ backend.Storage = (*Dev)(nil)
 var _ backend.WritableFile = (*Dev)(nil)
+
+// ForEachPage calls fn for every materialised page overlapping [lo,hi), in ascending order, with the
+// overlapping part of the page (off is the device offset of data[0]). Pages never written are skipped.
+func (d *Dev) ForEachPage(lo, hi int64, fn func(off int64, data []byte)) {
+	d.mu.Lock()
+	keys := make([]int64, 0, len(d.pages))
+	for k := range d.pages {
+		base := k * pageSize
+		if base+pageSize > lo && base < hi {
+			keys = append(keys, k)
+		}
+	}
+	d.mu.Unlock()
+	sort.Slice(keys, func(i, j int) bool { return keys[i] < keys[j] })
+	buf := make([]byte, pageSize)
+	for _, k := range keys {
+		base := k * pageSize
+		d.mu.Lock()
+		copy(buf, d.pages[k])
+		d.mu.Unlock()
+		a, b := int64(0), int64(pageSize)
+		if base < lo {
+			a = lo - base
+		}
+		if base+pageSize > hi {
+			b = hi - base
+		}
+		fn(base+a, buf[a:b])
+	}
+}
